@@ -16,19 +16,99 @@ NORETURN = {"abort", "std::abort", "std::terminate", "exit", "std::exit", "_exit
 HARD_ASSERT_MACROS = {"assert", "Assert", "CHECK_NONFATAL"}
 
 
+import os
+VERSIONING = os.environ.get("VERIF_VERSIONING", "1") != "0"
+_KILL_OPS = ASSIGN_OPS | {"++", "--", "post++", "post--"}
+_kill_cache = {}
+
+
+def _root_var(e):
+    """The variable an assignment overwrites AS A WHOLE (`v = ..`, `++v`); a write to a part of it
+    (`v.f = ..`, `v[i] = ..`, `*v = ..`) does not rename v: like member and heap state, parts of objects
+    are outside the versioning (DESIGN 2.11)."""
+    while is_expr(e):
+        if e[0] in ("local", "param"):
+            return e[1]
+        if e[0] == "paren" and len(e) > 1:
+            e = e[1]
+            continue
+        return None
+    return None
+
+
+def _expr_kills(e, out):
+    for x in subexprs(e):
+        t = x[0]
+        if t == "b" and x[1] in ASSIGN_OPS and len(x) > 2 and is_expr(x[2]):
+            r = _root_var(x[2])
+            if r:
+                out.add(r)
+        elif t == "u" and x[1] in ("++", "--", "post++", "post--") and len(x) > 2 and is_expr(x[2]):
+            r = _root_var(x[2])
+            if r:
+                out.add(r)
+        elif t == "opcall" and x[1] in _KILL_OPS and len(x) > 3 and is_expr(x[3]):
+            r = _root_var(x[3])
+            if r:
+                out.add(r)
+
+
+def killed_vars(node):
+    """Names of locals/parameters assigned as a whole anywhere inside a statement tree: after it, a
+    condition evaluated before it that mentions one of them talks about an older value (see Guard.stale)."""
+    if not VERSIONING or not isinstance(node, dict):
+        return frozenset()
+    i = id(node)
+    hit = _kill_cache.get(i)
+    if hit is not None and hit[0] is node:
+        return hit[1]
+    out = set()
+    for st in stmts(node):
+        # (a second declaration of the same name in a nested or sibling scope is a different variable, not a
+        # new value: names are not alpha-renamed, DESIGN 2.11 - only assignments count here)
+        for _, e in stmt_exprs(st):
+            _expr_kills(e, out)
+    r = frozenset(out)
+    _kill_cache[i] = (node, r)
+    return r
+
+
+def _with_stale(subst, kills, tag):
+    """subst extended so that the variables in `kills` read as their value before statement `tag`
+    (a variable that is already stale keeps its older tag only if it is not killed again here: the
+    innermost/earliest killer after the evaluation point names the version)."""
+    if not kills:
+        return subst
+    out = dict(subst or {})
+    st = dict(out.get("@stale") or {})
+    for v in kills:
+        st[v] = tag
+    out["@stale"] = st
+    return out
+
+
 def post_formula(st, subst=None):
-    """Condition that holds when statement st has completed normally (conservative: T if unknown)."""
+    """Condition that holds when statement st has completed normally (conservative: T if unknown).
+    Atoms refer to the values variables have when st completes; a condition evaluated inside st before a
+    later assignment inside st is renamed to the older version."""
     if not isinstance(st, dict):
         return F.T
     k = st.get("k")
     if k in ("ret", "throw", "break", "continue", "goto"):
         return F.Fa
     if k == "seq":
-        return F.mk_and([post_formula(x, subst) for x in st.get("s", [])])
+        items = [x for x in st.get("s", []) if isinstance(x, dict)]
+        parts = []
+        sub = subst
+        for x in reversed(items):
+            parts.append(post_formula(x, sub))
+            sub = _with_stale(sub, killed_vars(x), x.get("l"))
+        return F.mk_and(list(reversed(parts)))
     if k == "if":
-        c = F.to_formula(st.get("c"), subst)
-        return F.mk_or([F.mk_and([c, post_formula(st.get("t"), subst)]),
-                        F.mk_and([F.mk_not(c), post_formula(st.get("e"), subst) if st.get("e") is not None else F.T])])
+        ct = F.to_formula(st.get("c"), _with_stale(subst, killed_vars(st.get("t")), st.get("l")))
+        ce = F.to_formula(st.get("c"), _with_stale(subst, killed_vars(st.get("e")), st.get("l")))
+        return F.mk_or([F.mk_and([ct, post_formula(st.get("t"), subst)]),
+                        F.mk_and([F.mk_not(ce), post_formula(st.get("e"), subst) if st.get("e") is not None else F.T])])
     if k in ("while", "for"):
         parts = [F.atom("done(loop@%s)" % st.get("l"))]
         if is_expr(st.get("c")) and not has_break(st.get("b")):
@@ -48,14 +128,30 @@ def post_formula(st, subst=None):
 
 
 class Guard:
-    __slots__ = ("expr", "pol", "line", "kind", "vals")
+    __slots__ = ("expr", "pol", "line", "kind", "vals", "stale")
 
-    def __init__(self, expr, pol, line, kind, vals=None):
+    def __init__(self, expr, pol, line, kind, vals=None, stale=None):
         self.expr, self.pol, self.line, self.kind, self.vals = expr, pol, line, kind, vals
+        self.stale = stale      # {var: tag}: variables overwritten between this condition and the site
+
+    def aged(self, kills, tag):
+        """The same condition seen from after a statement (line `tag`) that overwrites `kills`."""
+        new = [v for v in kills if not (self.stale and v in self.stale)]
+        if not new:
+            return self
+        st = dict(self.stale or {})
+        for v in new:
+            st[v] = tag
+        return Guard(self.expr, self.pol, self.line, self.kind, self.vals, st)
 
     def formula(self, subst=None):
         if self.kind == "catch":
             return F.T
+        if self.stale:
+            subst = dict(subst or {})
+            st = dict(self.stale)
+            st.update(subst.get("@stale") or {})
+            subst["@stale"] = st
         if self.kind in ("post", "assert"):
             return post_formula(self.vals, subst)
         if self.kind == "case":
@@ -185,6 +281,10 @@ class SiteWalker:
         self.stmt(fs[0].body, guards, [] if not invoked else loops)
         self.lambda_ctx = save
 
+    @staticmethod
+    def age(guards, kills, tag):
+        return [g.aged(kills, tag) for g in guards] if kills else guards
+
     # -- statements
     def seq(self, items, guards, loops):
         g = list(guards)
@@ -192,6 +292,9 @@ class SiteWalker:
             if not isinstance(st, dict):
                 continue
             self.stmt(st, g, loops)
+            kv = killed_vars(st)
+            if kv:
+                g = [x.aged(kv, st.get("l")) for x in g]
             k = st.get("k")
             if k in ("if", "while", "for", "foreach", "do", "try", "seq"):
                 g = g + [Guard(None, True, st.get("l"), "post", st)]
@@ -219,6 +322,7 @@ class SiteWalker:
         elif k == "for":
             if isinstance(s.get("init"), dict):
                 self.stmt(s["init"], guards, loops)
+            guards = self.age(guards, killed_vars(s), s.get("l"))     # loop-carried: stale from the 2nd iteration on
             g2 = guards
             if is_expr(s.get("c")):
                 self.expr(s["c"], s, guards, loops + [s])
@@ -227,16 +331,18 @@ class SiteWalker:
             if is_expr(s.get("inc")):
                 self.expr(s["inc"], s, g2, loops + [s])
         elif k == "while":
+            guards = self.age(guards, killed_vars(s), s.get("l"))
             self.expr(s.get("c"), s, guards, loops + [s])
             self.stmt(s.get("b"), guards + [Guard(s["c"], True, s.get("l"), "loop")], loops + [s])
         elif k == "do":
+            guards = self.age(guards, killed_vars(s), s.get("l"))
             self.stmt(s.get("b"), guards, loops + [s])
             self.expr(s.get("c"), s, guards, loops + [s])
         elif k == "foreach":
             if isinstance(s.get("init"), dict):
                 self.stmt(s["init"], guards, loops)
             self.expr(s.get("range"), s, guards, loops)
-            self.stmt(s.get("b"), guards, loops + [s])
+            self.stmt(s.get("b"), self.age(guards, killed_vars(s.get("b")), s.get("l")), loops + [s])
         elif k == "switch":
             if isinstance(s.get("init"), dict):
                 self.stmt(s["init"], guards, loops)
@@ -265,7 +371,7 @@ class SiteWalker:
         elif k == "try":
             self.stmt(s.get("b"), guards, loops)
             for h in s.get("h", []):
-                self.stmt(h.get("b"), guards + [Guard(["str", h.get("ty", "...")], True, h.get("l"), "catch")], loops)
+                self.stmt(h.get("b"), self.age(guards, killed_vars(s.get("b")), s.get("l")) + [Guard(["str", h.get("ty", "...")], True, h.get("l"), "catch")], loops)
         elif k == "label":
             self.stmt(s.get("b"), guards, loops)
         else:
@@ -297,9 +403,12 @@ def returns(fn, program=None):
 # single-definition locals
 
 
-def local_defs(fn, program=None, extra_ok=()):
+def local_defs(fn, program=None, extra_ok=(), allow_overwritten=False):
     """{name: init expr} for locals that are declared once with an initialiser and never written
-    afterwards (assignment, ++/--, address-of, non-const reference argument to a known callee)."""
+    afterwards (assignment, ++/--, address-of, non-const reference argument to a known callee).
+    A local whose initialiser reads a variable overwritten later in its scope is left out unless
+    allow_overwritten: then the caller uses the substitution only at sites before that overwrite (a condition
+    evaluated before it keeps matching - one seen from after it carries the `v#line` version tag)."""
     decls = {}
     count = {}
     for st in stmts(fn.body):
@@ -337,8 +446,9 @@ def local_defs(fn, program=None, extra_ok=()):
                                 if ty.endswith("*") and not ty.startswith("const "):
                                     pass
     out = {}
+    unsafe = _init_overwritten(fn, decls) if VERSIONING and not allow_overwritten else ()
     for n, st in decls.items():
-        if count.get(n, 0) != 1 or n in written:
+        if count.get(n, 0) != 1 or n in written or n in unsafe:
             continue
         ty = st.get("ty", "")
         simple = ty.startswith("const ") or ty.endswith("*") or ty.endswith("* const") or ty in (
@@ -346,6 +456,33 @@ def local_defs(fn, program=None, extra_ok=()):
             "std::size_t", "uint8_t", "unsigned char", "NodeId", "auto") or ty.endswith("iterator") or n in extra_ok
         if simple:
             out[n] = st["i"]
+    return out
+
+
+def _init_overwritten(fn, decls):
+    """Single-definition locals whose initialiser reads a variable that is overwritten later in the scope of
+    the declaration (`b = c[0]; c = c.subspan(1); if (b) ..`): replacing b by `c[0]` after that point would
+    read the new c, so such a local is left as its own atom."""
+    by_stmt = {id(st): n for n, st in decls.items()}
+    out = set()
+    for blk in stmts(fn.body):
+        if blk.get("k") != "seq":
+            continue
+        items = [x for x in blk.get("s", []) if isinstance(x, dict)]
+        for i, st in enumerate(items):
+            n = by_stmt.get(id(st))
+            if n is None:
+                continue
+            reads = {x[1] for x in subexprs(st["i"]) if x[0] in ("local", "param") and len(x) > 1}
+            if not reads:
+                continue
+            later = set()
+            for y in items[i + 1:]:
+                for z in stmts(y):
+                    for _, e in stmt_exprs(z):
+                        _expr_kills(e, later)
+            if reads & later:
+                out.add(n)
     return out
 
 
